@@ -552,6 +552,8 @@ static void check_tracks(jd_t *d) {
                         if (pay_esb(ic) != 128) jd_err(d, "R5.index-esb", "TS INDEX at %llu entry_size_bits %u", (unsigned long long) ic->off, pay_esb(ic));
                         if (ic->plen != 16 + 16 * (uint64_t) cnt) { jd_err(d, "R5.index-len", "TS INDEX at %llu payload %u entries %u", (unsigned long long) ic->off, ic->plen, cnt); continue; }
                         if (cnt == 0) jd_err(d, "R5.index-empty", "TS INDEX at %llu has no entries", (unsigned long long) ic->off);
+                        { uint32_t df = tt == JD_TT_UTC ? s->udf : s->adf;   /* the definition's decimation factor is the capacity of an index chunk */
+                          if (df && cnt > df) jd_err(d, "R5.ts-index-count", "TS INDEX at %llu holds %u entries, the signal definition says decimate factor %u", (unsigned long long) ic->off, cnt, df); }
                         if (cnt && (int64_t) rd64(ic->payload + 16) != its) jd_err(d, "R5.index-ts0", "TS INDEX at %llu header ts %lld != first entry", (unsigned long long) ic->off, (long long) its);
                         for (uint32_t e = 0; e < cnt; ++e) {
                             int64_t ets = (int64_t) rd64(ic->payload + 16 + 16 * e);
